@@ -8,7 +8,7 @@
    recentlySent/priority rule of the code is one particular choice), ORecv (recvRoutine handles
    the next packet).  [descs] = the channels (id, SendQueueCapacity, RecvMessageCapacity). *)
 From Coq Require Import String List ZArith NArith Bool Lia.
-From TM Require Import Common.Hex Generated.Consts C17.Model C17.Proofs C17.ValSet C17.ValSetProofs.
+From TM Require Import Common.Hex Generated.Consts C17.Model C17.Proofs C17.ValSet C17.ValSetProofs C17.Stop C17.StopProofs.
 Import ListNotations.
 Open Scope Z_scope.
 
@@ -325,4 +325,56 @@ Example C17_wire_evidence_refuted_f85 :
   lcae_from_proto_f85 good 0 = DPanic /\ lcae_from_proto good 0 = DErr /\
   lcae_from_proto_f85 above 1 = DPanic /\ lcae_from_proto above 1 = DErr /\
   lcae_from_proto_f85 above 2 = DErr.
+Proof. vm_compute. repeat split. Qed.
+
+(* ------------------------------------------------------------------ F93: stopped from inside Receive *)
+
+(* "At worst that peer is disconnected": once a connection is down — recvRoutine left its loop
+   for a bad item, OR a reactor stopped the peer while handling one of its messages
+   (Switch.StopPeerForError -> MConnection.Stop, [verdict]) — no further message is handed to
+   the reactors and nothing else changes, whatever the peer had already put into the
+   connection's buffers: for every verdict function, every packet sequence and every stop
+   point.  And the message the reactor refuses is the last one delivered.  (With the repair of
+   finding F93: recvRoutine looks at quitRecvRoutine before it dispatches a packet it could
+   still read.) *)
+Theorem C17_no_delivery_after_stop :
+  (forall (verdict : Z -> bytes -> bool) (s0 : rstate) (pre post : list witem),
+     let s := recv_run verdict s0 pre in
+     rs_down s = true ->
+     recv_run verdict s0 (pre ++ post) = s /\
+     r_delivered (rs_recv (recv_run verdict s0 (pre ++ post))) = r_delivered (rs_recv s)) /\
+  (forall (verdict : Z -> bytes -> bool) (s : rstate) (it : witem) (c : Z) (m : bytes) (post : list witem),
+     rs_down s = false ->
+     newly_delivered (rs_recv s) (recv_item (rs_recv s) it) = Some (c, m) -> verdict c m = true ->
+     r_delivered (rs_recv (recv_run verdict s (it :: post))) = r_delivered (recv_item (rs_recv s) it)).
+Proof. exact no_delivery_after_stop_full. Qed.
+Print Assumptions C17_no_delivery_after_stop.
+
+(* a reactor that never stops the peer: the repaired loop is the loop of the other theorems *)
+Theorem C17_stop_check_conservative :
+  forall (verdict : Z -> bytes -> bool), (forall c m, verdict c m = false) ->
+  forall (l : list witem) (s : rstate), rs_quit s = r_stopped (rs_recv s) ->
+  rs_recv (recv_run verdict s l) = recv_items (rs_recv s) l.
+Proof. exact recv_run_conservative. Qed.
+Print Assumptions C17_stop_check_conservative.
+
+(* three messages in one flush, the reactor refuses the first (first byte 238) *)
+Definition ex_verdict (c : Z) (m : bytes) : bool := match m with x :: _ => (x =? 238)%N | [] => false end.
+Definition ex_flush : list witem :=
+  let pk := fun e d => WMsg {| p_ch := 64; p_eof := e; p_data := d |} in
+  [pk false [238; 1]%N; pk true [2]%N; pk true [7; 7]%N; pk true [8]%N].
+
+Example C17_no_delivery_after_stop_nonvacuous :
+  let s := recv_run ex_verdict (new_rstate [(64, 100)]) (firstn 2 ex_flush) in
+  rs_down s = true /\ r_stopped (rs_recv s) = false /\
+  r_delivered (rs_recv s) = [(64, [238; 1; 2]%N)] /\
+  r_delivered (rs_recv (recv_run ex_verdict (new_rstate [(64, 100)]) ex_flush)) = [(64, [238; 1; 2]%N)].
+Proof. vm_compute. repeat split. Qed.
+
+(* F93, the loop as it was: the two messages behind the refused one, already buffered, are
+   still handed to the reactor although the connection was stopped *)
+Example C17_no_delivery_after_stop_refuted_f93 :
+  let s := recv_run_f93 ex_verdict (new_rstate [(64, 100)]) ex_flush in
+  rs_down s = true /\
+  r_delivered (rs_recv s) = [(64, [238; 1; 2]%N); (64, [7; 7]%N); (64, [8]%N)].
 Proof. vm_compute. repeat split. Qed.
